@@ -96,9 +96,12 @@ fn emit_parser(out: &mut Out, orig: &str, ops: &[crate::c13::Op]) {
 }
 
 pub fn run(cfg: &Cfg, out: &mut Out) {
-    let miri = std::env::args().nth(2).map_or(false, |m| m == "miri");
+    // "miri": the reduced case list of the thorough tier; "miriq": the shorter one of the quick tier
+    let mode = std::env::args().nth(2).unwrap_or_default();
+    let miriq = mode == "miriq";
+    let miri = mode == "miri" || miriq;
     let alpha = ['a', 'é', '锈', '🧠'];
-    let hays = all_strings(&alpha, if miri { 2 } else if cfg.thorough { 5 } else { 4 });
+    let hays = all_strings(&alpha, if miriq { 1 } else if miri { 2 } else if cfg.thorough { 5 } else { 4 });
     let pats = all_strings(&alpha, if miri { 1 } else { 2 });
     for h in &hays {
         for n in &pats {
@@ -109,14 +112,17 @@ pub fn run(cfg: &Cfg, out: &mut Out) {
         }
     }
     let wsalpha = [' ', '\t', '\u{c}', 'x', 'é', '\u{a0}', '\u{3000}'];
-    for h in all_strings(&wsalpha, if miri { 2 } else { 4 }).iter() {
+    for h in all_strings(&wsalpha, if miriq { 1 } else if miri { 2 } else { 4 }).iter() {
         emit_ws(out, h);
     }
     // Parser sequences over multi-byte text (depth 2 exhaustive over the C13 op set, incl. skip into
     // the middle of a char)
     let pstrs = all_strings(&['a', 'é', '-', ' ', '🧠'], if miri { 1 } else { 3 });
     for s in &pstrs {
-        for a in crate::c13::OPS {
+        for (k, a) in crate::c13::OPS.into_iter().enumerate() {
+            if miriq && (k + s.len()) % 4 != 0 {
+                continue;
+            }
             emit_parser(out, s, &[a]);
             if !miri {
                 for b in crate::c13::OPS {
@@ -129,6 +135,8 @@ pub fn run(cfg: &Cfg, out: &mut Out) {
     crate::c01w::run(cfg, out, miri);
     // other unsafe-backed functions, exercised for Miri's benefit (results compared in C02/C07/C08/C20)
     if miri {
+        crate::c15::miri_cases(out, miriq);
+        crate::c11::miri_cases(out);
         let arr = [1u16, 2, 3, 4, 5];
         let z = [(); 7];
         for i in [0usize, 2, 5, 9, usize::MAX] {
